@@ -1393,8 +1393,10 @@ def run(ctx):
     run_malformed_files(ctx, ctx.scale(400, 6000), "m")
     if ctx.tier == "thorough" and ctx.hooks:
         sweep_rk(ctx)
+    # whole files: container x globals x SST x sheets composed (XlsFile.v), real reader vs model vs logical workbook
+    import wholegen
+    wholegen.run_whole(ctx)
     cleanup(ctx)
-
 def search(ctx):
     run_files(ctx, ctx.scale(3000, 20000), "sf")
     run_sst_files(ctx, ctx.scale(600, 4000), "st")
